@@ -230,6 +230,43 @@ def records(ctx, rng, nid):
             recs.append({'id': 'linear-%d' % next(nid), 'op': 'linear', 'site': 'Integration.%s' % ic.FUNCS[P],
                          'in': {'a': common.rat(a), 'b': common.rat(b), 'P': P, 'mode': case['mode'] + ('/long-epoch' if long_epoch else '/extreme-coefficients'),
                                 'frozen': case['frozen'], 'nomut': case['nomut']}, 'out': out})
+    # (b6) continuation from a shared density: a first epoch is integrated once, and that ONE result object is then continued
+    # twice - in the original units and re-expressed - so an integrator that works on (or aliases) its input is seen; plus
+    # durations shorter than one step of the rule after re-expression (a founder event seen from a large reference size)
+    rz = random.Random(ctx.seed + 3306)
+    for P in (1, 2, 3, 4, 5) if ctx.quick else (1, 2, 3, 4, 5, 2, 3, 4, 5):
+        for variant in ('continue', 'short'):
+            if variant == 'short' and P > 3 and ctx.quick:
+                continue
+            case = ic.gen_case(rz, P, kind='normal', n={1: 12, 2: 8, 3: 6, 4: 5, 5: 4}[P], mode=rz.choice(['const', 'linear']))
+            case['t0'] = 0.0
+            case['layout'] = 'C'
+            case['frozen'] = [False] * P
+            case['nomut'] = [False] * P
+            if variant == 'short':
+                for p_ in case['par']:
+                    p_['nu'] = {'c0': rz.uniform(0.003, 0.01), 'c1': 0.0}
+                    p_['gamma'] = {'c0': 0.0, 'c1': 0.0}
+                    p_['mig'] = [{'c0': 0.0, 'c1': 0.0, 'const': True} for _ in p_['mig']]
+            xx = rand_grid(random.Random(case['grid_seed']), case['n'], case['grid_kind'])
+            phi0 = rand_density(random.Random(case['phi_seed']), [case['n']] * P)
+            dts = []
+            for k in range(1, P + 1):
+                p_ = case['par'][k - 1]
+                ms = [p_['mig'][j]['c0'] for j in range(P) if j != k - 1] or [0]
+                dts.append(Integration._compute_dt(np.diff(xx), p_['nu']['c0'], ms, p_['gamma']['c0'], p_['h']['c0']))
+            T = (rz.uniform(0.3, 0.9) if variant == 'short' else rz.uniform(2.2, 4.5)) * min(dts)
+            c = 0.05 if variant == 'short' else rz.choice([0.2, 3.0, 7.3])
+            f = getattr(Integration, ic.FUNCS[P])
+            try:
+                first = f(phi0.copy(), xx, T, **_kwargs(case))          # the shared object
+                ys = common.rats(f(first, xx, T, **_kwargs(case)).ravel())               # values recorded at once: a result that
+                xs = common.rats(f(first, xx, T * c, **_kwargs(case, scale=c)).ravel())  # aliases `first` would change later
+                out = {'x': xs, 'y': ys}
+            except Exception as e:
+                out = {'raised': type(e).__name__ + ':' + str(e)[:60]}
+            recs.append({'id': 'same-%d' % next(nid), 'op': 'same', 'site': 'Integration.%s' % ic.FUNCS[P],
+                         'in': {'law': 'ReferenceSizeInvariance', 'c': common.rat(c), 'P': P, 'mode': case['mode'] + '/' + variant, 'frozen': case['frozen']}, 'out': out})
     # (c) whole models built from the public API: equilibrium, size change, split, migration, selection, admixture
     for r in range(8 if ctx.quick else 60):
         recs.append(model_record(rng, nid))
